@@ -378,6 +378,44 @@ theorem isIdentity_iff_dense {A : Mat K} (h : WF A) (hst : A.storage ≠ .identi
     · simpa [hij] using this
     · simpa [hij] using this
 
+/-- `fill`: the result is well-formed and every entry of the denoted matrix is the constant — for every storage, every
+    bandwidth pair and every n (Identity and non-zero Banded fills switch to Full storage; nothing is corrupted) -/
+theorem fill_dense {A : Mat K} (h : WF A) (v : K) :
+    WF (A.fill v) ∧ ∀ i j, i < A.n → j < A.n → entry (A.fill v) i j = v := by
+  obtain ⟨hm, hs⟩ := h
+  unfold fill
+  cases hst : A.storage with
+  | full =>
+    rw [hst] at hs; simp only at hs
+    refine ⟨⟨hm, by simp [hs]⟩, ?_⟩
+    intro i j hi hj
+    have hlt : i * A.n + j < A.data.size := by rw [hs]; exact flat_lt hi hj
+    simp [entry, Array.getD, hlt]
+  | identity =>
+    refine ⟨⟨hm, by simp [hm]⟩, ?_⟩
+    intro i j hi hj
+    have hlt : i * A.n + j < A.n * A.m := by rw [hm]; exact flat_lt hi hj
+    simp [entry, Array.getD, hlt]
+  | banded ml mu =>
+    rw [hst] at hs; simp only at hs
+    by_cases hv : v = 0
+    · have he : Num.eqb v (Num.zero : K) = true := by rw [num_eqb]; simp [hv]
+      simp only [he, if_true]
+      refine ⟨⟨hm, by simp [hs]⟩, ?_⟩
+      intro i j hi hj
+      simp only [entry]
+      split
+      · rename_i hb
+        have hlt : (i + mu - j) * A.n + j < A.data.size := by rw [hs]; exact flat_lt (band_row_lt hb) hj
+        simp [Array.getD, hlt, hv]
+      · exact hv.symm
+    · have he : ¬ (Num.eqb v (Num.zero : K) = true) := by rw [num_eqb]; simpa using hv
+      simp only [he, if_false]
+      refine ⟨⟨hm, by simp [hm]⟩, ?_⟩
+      intro i j hi hj
+      have hlt : i * A.n + j < A.n * A.m := by rw [hm]; exact flat_lt hi hj
+      simp [entry, Array.getD, hlt]
+
 noncomputable local instance : SqrtPow ℚ := ⟨id, fun a _ => a⟩
 
 /-- non-vacuity: a banded 3×3 matrix with a wide lower band and one sub-diagonal entry is not the identity -/
